@@ -398,29 +398,22 @@ func applySetUpdates(dir string, opts GlobalOptions, id string, updates map[stri
 	lockPath := filepath.Join(dir, "lock")
 	eventsPath := getEventsPath(dir)
 
-	// Handle result.path + result.summary (requires file I/O before lock)
+	// result.path + result.summary: the result event is recorded in the same
+	// locked step as the other fields, so the command applies as a whole.
 	resultPath, hasPath := updates["result.path"]
 	resultSummary, hasSummary := updates["result.summary"]
-	if hasPath || hasSummary {
+	attachResult := hasPath || hasSummary
+	if attachResult {
 		if !hasPath {
 			return errors.New("result.summary requires result.path=")
 		}
 		if !hasSummary {
 			return errors.New("result.path requires result.summary=")
 		}
-		if err := writeResultEvent(dir, opts, id, resultSummary, resultPath); err != nil {
-			return err
-		}
 		delete(updates, "result.path")
 		delete(updates, "result.summary")
-		// If no other updates, we're done
-		if len(updates) == 0 {
-			if !quiet {
-				fmt.Println(id)
-			}
-			return nil
-		}
 	}
+	repoDir := filepath.Dir(dir)
 
 	return withLock(lockPath, syscall.LOCK_EX, func() error {
 		graph, err := loadGraph(dir)
@@ -462,11 +455,21 @@ func applySetUpdates(dir string, opts GlobalOptions, id string, updates map[stri
 
 		now := time.Now().UTC()
 
+		var events []Event
+		if attachResult {
+			resultEvent, err := buildResultEvent(repoDir, task, resultSummary, resultPath, now)
+			if err != nil {
+				return err
+			}
+			events = append(events, resultEvent)
+		}
+
 		// Build events using pure function, passing I/O-dependent body resolver
-		events, remainingUpdates, err := buildSetEvents(id, task, updates, agentID, now, identityBodyResolver)
+		setEvents, remainingUpdates, err := buildSetEvents(id, task, updates, agentID, now, identityBodyResolver)
 		if err != nil {
 			return err
 		}
+		events = append(events, setEvents...)
 
 		// Check for any unhandled keys
 		if len(remainingUpdates) > 0 {
